@@ -848,6 +848,16 @@ def canonicalise_renames(d):
         old_cands = [o for o in missing if (sigs[o]["owner"], sigs[o].get("trait"), tuple(sigs[o]["inputs"]), sigs[o]["ret"]) == k]
         if len(cands) == 1 and len(old_cands) == 1:
             ren[cands[0]] = old
+            continue
+        # method <-> free/associated function with the same name and the same parameter/return types (the owner changed)
+        if not s.get("trait"):
+            last = old.rsplit("::", 1)[-1]
+            k2 = (last, tuple(s["inputs"]), s["ret"])
+            cands2 = [n for n in unknown if n not in ren and not cur[n].get("impl_trait") and
+                      (n.rsplit("::", 1)[-1], tuple(i["ty"] for i in cur[n]["inputs"]), cur[n]["ret"]["ty"]) == k2]
+            old2 = [o for o in missing if not sigs[o].get("trait") and (o.rsplit("::", 1)[-1], tuple(sigs[o]["inputs"]), sigs[o]["ret"]) == k2]
+            if len(cands2) == 1 and len(old2) == 1:
+                ren[cands2[0]] = old
     if not ren:
         return {}
 
